@@ -236,7 +236,7 @@ def run_a(task, ctx):
         if weak:
             ctx.count("a:pattern_compare_skipped_zero_strength_wave")
         else:
-            tolv = min(A_CAP, A_FACTOR * dmax + A_FLOOR)
+            tolv = A_CAP          # reported speeds: fixed 2e-2 of (|V| + c); measured worst 2.3e-3 (LeBlanc), the recorded defect 0.59
             if patI != patG:
                 ctx.violation(pair, c, "agree:wave-pattern", where, 1.0, 0.0, {"IGEOS": patI, "GenEOS": patG})
             elif len(VI) == len(VG):
@@ -474,14 +474,37 @@ def run_d(task, ctx):
         return
     for t in f["times"](full):
         try:
-            pts, nj, nc = hydro.sample_points(f, full, t, sB)
+            if f["name"] == "Sedov":
+                # both routes run the same table code on the same batch (same internal grid): a plain lattice reaching past the
+                # shock is enough, and far cheaper than locating the shock to 1e-13 through a 0.5 s solver
+                rmax = hm.sedov_shock_radius(sB, t)
+                pts, nc = np.append(hydro.base_lattice(0.0, rmax, 40), 1.5 * rmax), 8
+            else:
+                pts, nj, nc = hydro.sample_points(f, full, t, sB)
             ctx.res["evals"] += nc
-            A = ctx.call(sB, pts, t)
-            Bs = ctx.call(sW, pts, t)
         except Exception as ex:
-            ctx.count("call_exception:%s:%s" % (B.__name__, type(ex).__name__))
-            ctx.dg.add("exc", type(ex).__name__)
+            # the general class raised while its discontinuities were being located: fall back to the plain lattice so that
+            # the wrapper is still asked the same question
+            if f.get("domain") is None:
+                ctx.count("call_exception:%s:%s" % (B.__name__, type(ex).__name__))
+                continue
+            pts = hydro.base_lattice(*f["domain"](full, t), 24)
+        outs = []
+        for sx in (sB, sW):
+            try:
+                outs.append(("ok", ctx.call(sx, pts, t)))
+            except Exception as ex:
+                outs.append(("exc", type(ex).__name__))
+        if outs[0][0] == "exc" or outs[1][0] == "exc":
+            # a raising call is C20's business; here only the *same* outcome through both routes is demanded
+            ctx.dg.add("exc", str(outs[0][1])[:40], str(outs[1][1])[:40])
+            if outs[0][0] != outs[1][0] or outs[0][1] != outs[1][1]:
+                ctx.violation(pair, shared, "agree:outcome", {"t": t}, 1.0, 0.0, {"base": str(outs[0][1])[:60], "wrapper": str(outs[1][1])[:60]})
+            else:
+                ctx.count("call_exception:%s:%s" % (B.__name__, outs[0][1]))
+                ctx.count("pair_both_routes_raise:" + pair)
             continue
+        A, Bs = outs[0][1], outs[1][1]
         names = [n for n in A.dtype.names if A[n].dtype.kind in "fiu"]
         if tuple(A.dtype.names) != tuple(Bs.dtype.names):
             ctx.violation(pair, shared, "agree:field-names", {"t": t}, 1.0, 0.0, {"base": list(A.dtype.names), "wrapper": list(Bs.dtype.names)})
